@@ -59,7 +59,7 @@ def run(repo, res):
         for s, bp, binder, b in r['binds']:
             kinds.add(loc_kind(b.get('location'))[0])
         n += 1
-        ok = kinds <= {'np', 'expr_end', 'first_body'}
+        ok = kinds <= {'np', 'expr_end', 'first_body', 'node_end'}
         res.check('C13-R1', key + ' anchor', ok, r['line'][0], r['line'][1],
                   'the visibility anchor of %s is %s: not the start of a token (np / get_expr_end / first body '
                   'statement), so its order relative to other positions can change under re-layout'
